@@ -40,4 +40,15 @@ def roundF64 (q : Rat) : Rat :=
   let r := (n : Rat) * pow2 ulpE
   if q < 0 then -r else r
 
+/-- IEEE-754 binary32 rounding of an exact rational (nearest, ties to even; subnormals below 2^-126;
+    overflow to ±inf is not represented): `np.float32(x)` / `astype(np.float32)` of a finite double -/
+def roundF32 (q : Rat) : Rat :=
+  if q = 0 then 0 else
+  let a := if q < 0 then -q else q
+  let e := binExp a
+  let ulpE : Int := if e < -126 then -149 else e - 23
+  let n := roundHalfEven (a / pow2 ulpE)
+  let r := (n : Rat) * pow2 ulpE
+  if q < 0 then -r else r
+
 end XrsVerif
